@@ -200,6 +200,8 @@ class PyLowerer:
                 if (self.func.cls + '.' + f.attr) in self.mod.funcs:
                     return self.func.cls + '.' + f.attr, True
                 return f.attr, True
+            if isinstance(f.value, ast.Name) and f.value.id in self.mod.classes and (f.value.id + '.' + f.attr) in self.mod.funcs:
+                return f.value.id + '.' + f.attr, False      # static call through the class name
             root = f.value
             while isinstance(root, ast.Attribute):
                 root = root.value
